@@ -36,6 +36,7 @@ SHRINK = {"list": ["plan"], "text": ["docs.0", "docs.1"]}
 NO_SHRINK = True  # schedules are reported as found (plans are already minimal: one switch in the sweeps)
 
 PAIRS = [
+    ["*alpha [one `c` two](/a) omega* [Straße θ]: /s\n\n[Straße θ]: /s\n\nsee [Straße θ] and [again][straße ϑ].\n", "__left [x *y* z](/b) right__ [ΩMEGA É]\n\n[ωmega é]: /o 'T'\n\n**b [l](u) c**\n"],
     ["```rust x\nfn a() {}\n```\n\n![alt *text* `c` here](u) ![x](y)\n\n~~~py\nb\n~~~\n", "```c\nint b;\n```\n\n" + ">" * 19 + " deep *text* ![i](s)\n\n~~~ js z\nq\n~~~\n"],
     ["z [x `]` y](/u) [p *q* `r]`](/v) ![s [t] `]`](/w)\n", "[abcdefgh*i](/m) [a][b] ![c `d` e](f) [gh `i` jk lm](/n)\n"],
     ["# T\n\n> *a* [b](c)\n\n- x\n- y `z`\n", "1. q **w**\n\n```\nf\n```\n\nfoo\n***\nbar\n# H\nbaz\n> q\n"],
@@ -122,6 +123,14 @@ def enumerate_cases(tier: str, shard: int, nshards: int):
                     if idx % nshards != shard:
                         continue
                     yield {"kind": "threads", "docs": docs, "calls": calls, "cfg": cfg, "state": state, "plan": [k, sched.BIG], "origin": "sweep"}
+                # round robin with a fixed quantum: many switches, calls overlap in non-LIFO order
+                for q in (2, 3, 5, 7, 11, 20, 37, 50, 97, 150, 400, 1000, 2500):
+                    for off in (0, q // 2):
+                        idx += 1
+                        if idx % nshards != shard:
+                            continue
+                        plan = ([off] if off else []) + [q] * (2 * (max(counts) // q) + 8)
+                        yield {"kind": "threads", "docs": docs, "calls": calls, "cfg": cfg, "state": state, "plan": plan[:6000], "origin": "round-robin"}
     # nested re-entrancy sweeps
     for pi, docs in enumerate(PAIRS):
         cfg = CFGS[pi % len(CFGS)]
